@@ -646,6 +646,55 @@ def check_table_worlds(repo: Repo, rep: Report, tier: str):
     rep.ok(rule, root.qualname, f"{n_worlds} abstract files (32 marker subsets x placement x torch-zip / displaced zip / no zip x tar x stacked pickle x model-archive members) interpreted through identify_pytorch_file_format, find_file_properties and the helpers they call; answers compared with the documented table", "", nontrivial=True)
 
 
+def check_pickle_probe_on_bytes(repo: Repo, rep: Report):
+    """`check_pickle` (the evidence behind the 'legacy pickle' answer) interpreted by sa.objeval over real bytes: what torch's
+    legacy save writes - a stack of pickles - alone, and followed by what the documented polyglots put after it (a zip archive,
+    a tar block, text).  A file that starts with a complete pickle is pickle evidence whatever follows; a file that does not
+    start with one is not."""
+    import io
+    import pickle
+    import zipfile
+
+    from ..minieval import PyRaise, Unsupported
+    from .c06 import _fresh_objeval
+
+    rule = "C17.legacy-pickle"
+    f = repo.functions.get(f"{PG}.check_pickle")
+    if f is None:
+        raise AnalysisError("fickling.polyglot.check_pickle not found")
+    zbuf = io.BytesIO()
+    with zipfile.ZipFile(zbuf, "w") as z:
+        z.writestr("model/data.pkl", b"\x80\x02}.")
+        z.writestr("model/version", b"3\n")
+    tails = [("nothing", b""), ("a zip archive (PK\\x03\\x04 ...: `P` is also the PERSID opcode)", zbuf.getvalue()), ("a zip end-of-central-directory record", b"PK\x05\x06" + b"\x00" * 18), ("a tar block of zeros", b"\x00" * 512), ("text", b"# not a pickle\n")]
+    stacks = [("torch legacy save, protocol 2", [pickle.dumps(x, 2) for x in (0x1950A86A20F9469CFC6C, 1001, {"protocol_version": 1001}, {"w": [1.5]}, ["0"])]), ("torch legacy save, protocol 0", [pickle.dumps(x, 0) for x in (0x1950A86A20F9469CFC6C, 1001, {"w": [15]})]), ("torch legacy save, protocol 4 (framed)", [pickle.dumps(x, 4) for x in (0x1950A86A20F9469CFC6C, 1001, {"w": [1.5]}, ["0"])])]
+    n = 0
+    for slabel, parts in stacks:
+        for tlabel, tail in tails:
+            oe = _fresh_objeval(repo)
+            try:
+                got = oe.module_global(repo.modules[PG], "check_pickle")(io.BytesIO(b"".join(parts) + tail))
+            except Unsupported as e:
+                raise AnalysisError(f"check_pickle: cannot interpret over {slabel} followed by {tlabel}: {e}")
+            except PyRaise as pe:
+                got = f"raises {pe.name}"
+            n += 1
+            if got is not True:
+                rep.bad(rule, f.qualname, f"pickle-not-recognised:followed-by:{tlabel.split(' (')[0]}", f"check_pickle answers {got!r} for {slabel} followed by {tlabel}: the file starts with complete pickles, so the pickle evidence (and with it the legacy / polyglot identification) is lost", f.file, f.line)
+    for tlabel, data in (("a zip archive", zbuf.getvalue()), ("text", b"# not a pickle\n"), ("an empty file", b"")):
+        oe = _fresh_objeval(repo)
+        try:
+            got = oe.module_global(repo.modules[PG], "check_pickle")(io.BytesIO(data))
+        except Unsupported as e:
+            raise AnalysisError(f"check_pickle: cannot interpret over {tlabel}: {e}")
+        except PyRaise as pe:
+            got = f"raises {pe.name}"
+        n += 1
+        if got is not False:
+            rep.bad(rule, f.qualname, f"non-pickle-recognised:{tlabel}", f"check_pickle answers {got!r} for {tlabel}, which does not start with a pickle", f.file, f.line)
+    rep.ok(rule, f.qualname, f"{n} byte streams (legacy stacks at protocols 0 / 2 / 4; alone and followed by a zip archive, a zip end record, a tar block, text; and three non-pickles) through the interpreted check_pickle", f"{f.file}:{f.line}")
+
+
 def run(rep: Report, tier: str):
     repo = load_repo()
     rep.explanation = (
@@ -667,3 +716,4 @@ def run(rep: Report, tier: str):
     check_table(repo, rep)
     check_inputs(repo, rep)
     check_cleanup(repo, rep)
+    check_pickle_probe_on_bytes(repo, rep)  # interpretive: last
